@@ -61,6 +61,13 @@ type memNode struct {
 type atomIO struct{ api *memAPI }
 
 func (io *atomIO) Write(_ context.Context, _ coreiface.CoreAPI, obj interface{}, _ *iface.WriteOpts) (c cid.Cid, err error) {
+	if io.api.gated {
+		if e, ok := obj.(iface.IPFSLogEntry); ok {
+			vx.GateSeq("write:" + string(e.GetPayload()))
+		} else {
+			vx.GateSeq("write:manifest")
+		}
+	}
 	// a block store is safe for concurrent use (like the DAG service behind the real codec): one atomic step
 	vx.Atomic(func() { c, err = io.write(obj) })
 	return c, err
